@@ -1081,10 +1081,11 @@ func (interp *Interpreter) cfg(root *node, sc *scope, importPath, pkgName string
 				// by constOp and available in n.rval. Nothing else to do at execution.
 				n.gen = nop
 				n.findex = notInFrame
-			case n.anc.kind == assignStmt && n.anc.action == aAssign && n.anc.nleft == 1 && !isBlank(n.anc.child[childPos(n)-n.anc.nright]):
+			case n.anc.kind == assignStmt && n.anc.action == aAssign && n.anc.nleft == 1 && !isBlank(n.anc.child[childPos(n)-n.anc.nright]) && !isInterface(n.anc.child[childPos(n)-n.anc.nright].typ):
 				// To avoid a copy in frame, if the result is to be assigned, store it directly
 				// at the frame location of destination. A blank destination has no type nor
 				// frame location yet: they are set from this node, at assign post-order.
+				// Not for an interface destination: the assign operation converts the result.
 				dest := n.anc.child[childPos(n)-n.anc.nright]
 				n.typ = dest.typ
 				n.findex = dest.findex
@@ -2484,8 +2485,9 @@ func (interp *Interpreter) cfg(root *node, sc *scope, importPath, pkgName string
 			case n.rval.IsValid():
 				n.gen = nop
 				n.findex = notInFrame
-			case n.anc.kind == assignStmt && n.anc.action == aAssign && n.anc.nright == 1 && !isBlank(n.anc.child[childPos(n)-n.anc.nright]):
-				// Not for a blank destination, which has no type nor frame location yet.
+			case n.anc.kind == assignStmt && n.anc.action == aAssign && n.anc.nright == 1 && !isBlank(n.anc.child[childPos(n)-n.anc.nright]) && !isInterface(n.anc.child[childPos(n)-n.anc.nright].typ):
+				// Not for a blank destination, which has no type nor frame location yet, nor
+				// for an interface destination: the assign operation converts the result.
 				dest := n.anc.child[childPos(n)-n.anc.nright]
 				n.typ = dest.typ
 				n.findex = dest.findex
